@@ -18,7 +18,7 @@ NOT_APPLICABLE = {
            "BytesMut and boxed readers. Message::from_bytes compiles under Kani only after the repr(u8) transformation and then exhausts "
            "goto-instrument's memory (16 GB); PacketBodyReader/StreamDecryptor/NormalizedReader harnesses with 1-7 symbolic octets ran out "
            "of 12-14 GB or 10-40 min (DESIGN.md 0.6). The writer side that was decidable (SEIPDv2 stream == RFC schedule, headers, "
-           "length codecs) is claimed under C12/C17/C05; a one-sided writer check is not the round-trip property.",
+           "length codecs) is claimed under C12/C17/C05 and the single decision steps of the stream decryptors under C03; neither is the round-trip property.",
     "C03": _KANI + "every clause is about the stream *decryptors* (aead::StreamDecryptor, sym::StreamDecryptorInner); both are BytesMut "
            "split_to/unsplit state machines for which CBMC returned no verdict even on a 33-octet stream with 3 symbolic octets "
            "(design-phase probes, repeated with the build-phase transformations). Only decryptor *construction* is decidable (claimed under C04).",
